@@ -285,6 +285,21 @@ def run_case(ck, desc):
     pvt_own = {k: (lambda x, k=k: np.interp(x, P, cols[k])) for k in ("Bo", "Bg", "Bw", "Rs", "Rv", "mu_o", "mu_g", "mu_w")}
     lam = _mobility(P, So, pvt_own, kr_own, dens)
     _common(ck, desc, P, lam, got, "from_table")
+    # the public transform asked directly, with the object's own (tabulated) look-ups, on PART of the table - the
+    # rows from a frac-face pressure upwards: zero at the first pressure it is given, the integral from there on
+    a_ = max(1, len(P) // 4)
+    if len(P) - a_ >= 3:
+        try:
+            with warnings.catch_warnings(), np.errstate(all="ignore"):
+                warnings.simplefilter("ignore")
+                sub_ = np.asarray(fp.pseudopressure_threephase(P[a_:].copy(), So_rows[a_:].copy() if "So_rows" in dir() else cols["So"][a_:].copy(), obj.pvt, obj.kr), dtype=float)
+            own_sub = np.concatenate([[0.0], np.cumsum(0.5 * (lam[a_ + 1 :] + lam[a_:-1]) * np.diff(P[a_:]))])
+            ck.count("transform_asked_on_part_of_the_table")
+            sc_ = max(float(np.max(np.abs(own_sub))), 1e-300)
+            if sub_.shape != own_sub.shape or not ck.margin("transform on part of the table = integral from its first pressure", float(np.max(np.abs(sub_ - own_sub))) / sc_, 1e-9):
+                ck.violation("integral-of-mobility", {"route": "pseudopressure_threephase on rows from row %d upwards with the object's look-ups" % a_, "value_at_first_pressure": float(sub_[0]) if sub_.size else None, "rel": float(np.max(np.abs(sub_ - own_sub))) / sc_ if sub_.shape == own_sub.shape else None}, desc)
+        except Exception as e:  # noqa: BLE001
+            ck.count(f"transform_on_part_of_the_table_raised.{type(e).__name__}")
     # derived scaled pseudopressure
     ms = np.asarray(obj.pvt_props["m-scaled"], dtype=float)
     mobile_step = (lam[1:] > 0) | (lam[:-1] > 0)
